@@ -105,8 +105,9 @@ type CmaEsChol struct {
 	chol     mat.Cholesky
 
 	// Overall best.
-	bestX []float64
-	bestF float64
+	bestX   []float64
+	bestF   float64
+	hasBest bool // bestX and bestF hold an evaluated sample of this run
 
 	// Synchronization.
 	sentIdx     int
@@ -232,6 +233,7 @@ func (cma *CmaEsChol) Init(dim, tasks int) int {
 
 	cma.bestX = resize(cma.bestX, dim)
 	cma.bestF = math.Inf(1)
+	cma.hasBest = false
 
 	cma.sentIdx = 0
 	cma.receivedIdx = 0
@@ -291,7 +293,10 @@ func (cma *CmaEsChol) findBestAndUpdateTask(task Task) Task {
 		task.F = bestF
 		copy(task.X, bestX)
 	} else {
-		if bestF < cma.bestF {
+		// The first generation provides the best so far even if all of its
+		// values are +Inf or NaN, and any value is better than NaN.
+		if !cma.hasBest || bestF < cma.bestF || (math.IsNaN(cma.bestF) && !math.IsNaN(bestF)) {
+			cma.hasBest = true
 			cma.bestF = bestF
 			copy(cma.bestX, bestX)
 		}
@@ -381,7 +386,7 @@ Loop:
 	// we only send an iteration if we find a better location.
 	if !cma.ForgetBest {
 		best := cma.bestIdx()
-		if best != -1 && cma.fs[best] < cma.bestF {
+		if best != -1 && (!cma.hasBest || cma.fs[best] < cma.bestF || math.IsNaN(cma.bestF)) {
 			task := tasks[0]
 			task.F = cma.fs[best]
 			copy(task.X, cma.xs.RawRowView(best))
